@@ -46,3 +46,8 @@ CHECKS["C11"] = {"pkg": "txn", "shards": 12,
     "technique": "property-based testing (rapid boundary-aimed generator) against a big-integer model of the soft and hard transaction rules",
     "text": "Generated-input search with a model oracle: VerifySingleTxnSoftConstraints / VerifySingleTxnHardConstraints / VerifyBlockTxnConstraints must accept exactly what the math/big model accepts and report failures with the right constraint type; generators aim output hours at ceil(total/burn)+-1, sizes at the limit +-1, coins at precision boundaries, accruals at the overflow classes and inputs at locked distribution addresses.",
     "note": "trusted: harness/internal/ref/rules (model), textbook curve for signatures; verification parameters are drawn only from the range params.VerifyTxn.Validate accepts"}
+
+CHECKS["C12"] = {"pkg": "txn", "shards": 12,
+    "technique": "property-based testing (rapid) of transaction.Create against a validity predicate (reference rules) and a completeness oracle over the offered set",
+    "text": "Generated-input search: many correct outputs are possible, so the result is judged by a validity predicate - well formed and hard-valid under the reference model, inputs distinct and offered, receivers paid exactly, change amount and documented change address, automatic hours summing to the allotted amount and proportional, burn >= required fee - and failures must be user-level and, for 'insufficient', justified by the whole offered set.",
+    "note": "trusted: harness/internal/ref/rules; burn factor = params.UserVerifyTxn; offered totals < 2^62 without accrual overflow"}
